@@ -155,6 +155,8 @@ type peer struct {
 	closeRep  string // "result" | "none"
 	// light mode: do not keep nodes of data events (very long transfers)
 	light bool
+	// what follows the acknowledgement of an open request in the same write
+	early func(sid string) string
 }
 
 func newPeer(sv *wire.Served) *peer {
@@ -169,6 +171,14 @@ func newPeer(sv *wire.Served) *peer {
 		p.mu.Unlock()
 	}()
 	return p
+}
+
+// setEarly: what the peer sends in the same write as its acknowledgement of
+// an open request (nil: nothing).
+func (p *peer) setEarly(f func(sid string) string) {
+	p.mu.Lock()
+	p.early = f
+	p.mu.Unlock()
 }
 
 func (p *peer) setPolicy(open, data, cls string) {
@@ -234,7 +244,16 @@ func (p *peer) loop() {
 			// automatic replies
 			switch {
 			case e.kind == "open":
-				p.reply(e.id, open)
+				p.mu.Lock()
+				early := p.early
+				p.mu.Unlock()
+				if open == "result" && early != nil {
+					// the accepting peer speaks first: its first data packet
+					// travels right behind its acknowledgement of the open request
+					p.sv.Feed(`<iq type="result" id="` + escAttr(e.id) + `" from="` + peerJID + `"/>` + early(e.sid))
+				} else {
+					p.reply(e.id, open)
+				}
 			case e.kind == "data" && e.carrier == "iq" && e.id != "":
 				p.reply(e.id, data)
 			case e.kind == "close":
